@@ -72,6 +72,36 @@ theorem auth_ignores_nexthdr_payloadlen (a : AuthIn) (c : Cmn)
 theorem tag_changes_of_input_ne (mac : Bytes → Bytes) (hinj : ∀ x y, mac x = mac y → x = y)
     (x y : Bytes) (h : x ≠ y) : mac x ≠ mac y := fun e => h (hinj x y e)
 
+/-! ### which path fields `ImmutEq` (through `zeroPath`) ignores and which it covers -/
+
+/-- current info/hop pointers are ignored -/
+theorem path_ignores_pointers (m : PathMeta.Hdr) (body : Bytes) (x y : Nat) :
+    zeroPath (.scion { m with currINF := x, currHF := y } body) = zeroPath (.scion m body) :=
+  zeroRaw_ignores_pointers m body x y
+
+/-- on a SCION path with info fields `is` and hop fields `hs`: the authenticated bytes are the meta
+line without its pointer byte, the info fields with SegID cleared, the hop fields with the
+router-alert flags cleared — so SegIDs and alert flags are ignored and every other field
+(segment lengths, Peer/ConsDir flags, timestamps, expiry, interfaces, MACs) is covered verbatim -/
+theorem path_fields_covered (m : PathMeta.Hdr) (b : PathMeta.Base) (is : List Info) (hs : List Hop)
+    (hb : PathMeta.baseDecode m = some b) (hi : is.length = b.numINF) (hh : hs.length = b.numHops) :
+    zeroPath (.scion m (encInfos is ++ encHops hs)) =
+      some (0 :: (natBE 4 (PathMeta.encode m)).drop 1 ++
+        (encInfos (is.map clearSegID) ++ encHops (hs.map clearAlerts))) :=
+  zeroRaw_fields m b is hs hb hi hh
+
+/-- one-hop path: SegID, the first hop's router-alert flags and the whole second hop are ignored -/
+theorem onehop_ignores_mutable (i : Info) (h1 h2 h2' : Hop) (s : Nat) (a b : Bool) :
+    zeroPath (.onehop { i with segID := s } { h1 with inAlert := a, egAlert := b } h2') =
+      zeroPath (.onehop i h1 h2) := zeroPath_onehop_ignores i h1 h2 h2' s a b
+
+/-- EPIC: PktID, PHVF and LHVF are covered, the embedded path is treated as a SCION path -/
+theorem epic_covers_metadata (ts ctr : Nat) (p l : Bytes) (m : PathMeta.Hdr) (body : Bytes)
+    (hp : p.length = 4) (hl : l.length = 4) :
+    zeroPath (.epic ts ctr p l m body) =
+      (zeroRaw m body).map fun z => natBE 4 ts ++ natBE 4 ctr ++ p ++ l ++ z :=
+  zeroPath_epic ts ctr p l m body hp hl
+
 /-! ### the traffic-class clause fails (known finding `C21/tc-mask-0x3f`) -/
 
 def exHdr (tc : Nat) : Hdr :=
